@@ -41,7 +41,7 @@ def gen_mixed_network(rng, nmax):
     jd = [[0] * len(names) for _ in range(N)]
     todo = [(k, MIXED[k][0], MIXED[k][1]) for k in kinds] + [(p, SHAPES[p][0], [(a, b, p) for a, b in SHAPES[p][1]]) for p in plain]
     for kind, size, pat in todo:
-        want, placed = rng.randint(2, 6), 0
+        want, placed = rng.randint(3, 7), 0
         for _ in range(want * 15):
             if placed >= want:
                 break
@@ -221,7 +221,7 @@ class MCMCProp(Prop):
     min_topologies = 1
 
     def gen(self, rng, i, tier):
-        if i % 4 == 3:
+        if i % 3 == 2:
             net = gen_mixed_network(rng, 24 if tier == "quick" else 50)
         else:
             net = gen_clean_network(rng, 24 if tier == "quick" else 60, self.min_topologies if rng.random() < 0.8 else 1)
@@ -330,6 +330,8 @@ class MCMCProp(Prop):
                 obs["same_object_as_input"] = Gout is net.G
             except ScriptExhausted:
                 obs["exhausted"] = True
+                if calls and "result" not in calls[-1]:
+                    calls.pop()          # the draw budget ran out INSIDE this proposal: it was not observed to its end
             except mod.ErrorMarkovChainMonteCarloRewiring as e:
                 obs["raised"] = str(e)[:200]
         obs["calls"] = calls
